@@ -339,11 +339,22 @@ func invalidTrial(r *vlib.Run, trial int, rng *rand.Rand) {
 }
 
 func body(r *vlib.Run) {
+	// Parallel mode wants real parallelism: half of the shards run it first, the
+	// other half last, so that fewer processes compete for the cores meanwhile.
+	par := func() {
+		r.ForTrials("parallel", r.N(8, 64), func(trial int, rng *rand.Rand) { parallelTrial(r, trial, rng) })
+	}
+	if r.Shard%2 == 0 {
+		par()
+	}
 	r.ForTrials("queue", r.N(3000, 150000), func(trial int, rng *rand.Rand) { queueTrial(r, trial, rng) })
 	r.ForTrials("invalid", r.N(600, 30000), func(trial int, rng *rand.Rand) { invalidTrial(r, trial, rng) })
 	r.ForTrials("fixed", r.N(300, 10000), func(trial int, rng *rand.Rand) { fixedTrial(r, trial, rng) })
 	r.ForTrials("client", r.N(600, 30000), func(trial int, rng *rand.Rand) { clientTrial(r, trial, rng) })
 	r.ForTrials("agent", r.N(50, 1000), func(trial int, rng *rand.Rand) { agentTrial(r, trial, rng) })
+	if r.Shard%2 != 0 {
+		par()
+	}
 }
 
 func main() {
@@ -353,7 +364,8 @@ func main() {
 			"mode queue: UpdateQueue.Next driven to exhaustion (all-finite) or 200-1000 steps, every emission judged online (order, first emission, repeat, range/list/constant, timestamp delta, overdue/skipped values, sync placement, end state), then the sequence compared with a queue built from a deep clone and one built from the reused object (same non-zero seed). " +
 			"mode invalid: one value with a documented-invalid setting (negative timestamp, delta_min>delta_max, negative delta, min>max, value outside range, value delta_min>delta_max, empty option list, no value) among valid finite ones: Next must return an error and never a generated value of that configuration. " +
 			"mode fixed: FixedQueue / fixed generator deliver exactly the configured responses in order, sync once at the end. mode client: the real fake Client.Run on an in-memory stream; mode agent: the real fake Agent over loopback TCP gRPC — responses (minus the sync marker) must equal the queue's own sequence, sync exactly once and after every value's first emission. " +
-			"A case is counted distinct non-trivial (hash of the deterministic serialisation of the configuration + mode) when at least two configured values were emitted and at least one generated (non-first) emission was judged against its delta bounds and range/list/constant [queue], the invalid value was rejected with an error [invalid], at least one response was compared [fixed/client/agent].",
+			"mode parallel: 2-8 fake targets with different configurations (latest initial timestamps between 5 and 10^12) in one process at GOMAXPROCS 2/4/8/all/2x: fresh Clients started together behind a barrier, long-lived POLL Clients whose every Poll rebuilds the generator, and up to 3 real agents subscribed to together; every pass of every target is judged on its own by the same per-stream oracle. " +
+			"A case is counted distinct non-trivial (hash of the deterministic serialisation of the configuration + mode) when at least two configured values were emitted and at least one generated (non-first) emission was judged against its delta bounds and range/list/constant [queue], the invalid value was rejected with an error [invalid], at least one response was compared [fixed/client/agent], every pass of a target was judged while targets with different latest timestamps ran concurrently [parallel, per target configuration].",
 		Assumptions: []string{
 			"a configured value is identified by its path (generated configurations use unique paths)",
 			"range/list membership is demanded of generated values (second and later emissions); the first emission must carry the configured initial timestamp and value; a value without a distribution is a constant",
@@ -361,6 +373,7 @@ func main() {
 			"value magnitudes and timestamps stay below 2^62 (int64 overflow in the generator is outside the statement); doubles are finite and below 1e16; strings are valid UTF-8",
 			"after the first error from Next the stream is considered ended (as the fake client does); what Next returns afterwards is only counted as a diagnostic",
 			"the documented-invalid value has repeat 0 or >= 2: with repeat 1 the generator emits the configured value once and never generates (nor validates) anything",
+			"parallel mode explores interleavings of concurrent targets by repetition (thousands of concurrent generator rebuilds per run), not by enumeration; a window that is never hit stays unexplored",
 			"agent mode: listener, dial or transport failures and the 120 s watchdog are inconclusive, never violations",
 		},
 		QuickShards: 8, ThoroughShards: 16,
